@@ -448,6 +448,11 @@ TIES = {
     'RangeElements': dict(props=['C11'], gen=['IsElements', 'StartsWithElements', 'EndsWithElements'],
                           theorems=['elem_loop', 'is_elements_tie', 'starts_with_elements_tie', 'ends_with_elements_tie'],
                           cxx='is_elements_checker, starts_with_elements_checker, ends_with_checker (matcher/range.hpp): iterator + lambda + pack fold'),
+    'RangeContainers': dict(props=['C11'], gen=['IsRange', 'StartsWithRange', 'EndsWithRange', 'RangeAllOf', 'RangeNoneOf', 'RangeAnyOf'],
+                            theorems=['is_range_tie', 'starts_with_range_tie', 'ends_with_range_tie', 'range_all_of_tie', 'range_none_of_tie',
+                                      'range_any_of_tie', 'range_containers_accept'],
+                            cxx='is_range_checker, starts_with_range_checker, ends_with_range_checker, range_all_of / none_of / any_of checkers '
+                                '(matcher/range.hpp): one standard algorithm with a param_matches lambda each'),
     'ReturnPath': dict(props=['C08', 'C17'], gen=['ReturnHandlerCall', 'TraceReturnVoid', 'TraceReturnValue'],
                        theorems=['return_path_tie', 'return_evaluated_once'],
                        cxx='return_handler_t::call and the two trace_return<Ret> helpers (mock.hpp): the RETURN functor is evaluated once'),
